@@ -149,7 +149,7 @@ def make_stale(rng, tier):
 
 
 CORRUPTIONS = ['empty', 'truncate', 'truncate', 'truncate', 'overwrite', 'overwrite', 'zero', 'garbage',
-               'text', 'other-object', 'splice', 'append']
+               'text', 'other-object', 'splice', 'append', 'attr', 'attr']
 ALL_FAULTS = [cw.D_CRASH_BEFORE, cw.D_CRASH_AFTER, cw.D_TORN, cw.D_EIO, cw.D_ENOSPC, cw.D_EACCES,
               cw.D_EMFILE, cw.D_ENOENT]
 
